@@ -150,4 +150,4 @@ def toy_pairing(ctx: Ctx):
     ctx.add_cov("toy_pairings", sum(1 for r in rs if r["op"] == "pair"))
     ctx.sample({"toy_pairing_row": {k: v for k, v in rs[3].items()}})
     tables.validate(ctx, "ToyPairing", rs, invariants=["PremisesOK", "RowsOK"], files={"PARAMS": [params]},
-                    tag=lambda r: f"toypairing:{r['m']}:{r['op']}", describe=lambda r: str(r)[:400], java_opts="-Xss256m -Xmx24g")
+                    tag=lambda r: f"toypairing:{r['m']}:{r['op']}", describe=lambda r: str(r)[:400], java_opts="-Xss256m -Xmx8g")
